@@ -9,7 +9,7 @@ import grammar as G
 import lit
 from props import c04 as R
 
-CLASSES_C05 = {1: 'double_close', 4: 'ring_in_unit', 5: 'nested_in_unit', 10: 'stale_recipe'}
+CLASSES_C05 = {4: 'ring_in_unit', 5: 'nested_in_unit', 10: 'stale_recipe'}
 
 
 def py_class(a, braces=True):
@@ -17,8 +17,6 @@ def py_class(a, braces=True):
     its = list(G.items_in_order(a))
     sites = [(it, j, br) for it in its for j, br in enumerate(it['br'])]
     mval = lambda br: int(br['m']) if br['m'] is not None else 1
-    if any(br['c'][-1]['br'] for _, _, br in sites):
-        return 1
     for it, j, br in sites:
         unit = ([it] if j == 0 else []) + list(G.items_in_order(br['c']))
         if mval(br) >= 2 and any(u['r'] for u in unit):
